@@ -50,7 +50,12 @@ func (tr *FnTrans) instr(in ssa.Instruction) {
 		if base.K != KRef {
 			panic(vcErrorf("field address of %v value", base.K))
 		}
-		tr.oblig("nil", "", sNot(sEq(base.T, "0")), "nil dereference at "+tr.posStr(x.Pos()))
+		switch x.X.(type) {
+		case *ssa.FieldAddr, *ssa.IndexAddr, *ssa.Alloc:
+			// interior address of an object that was already dereferenced / fresh object: never nil
+		default:
+			tr.oblig("nil", "", sNot(sEq(base.T, "0")), "nil dereference at "+tr.posStr(x.Pos()))
+		}
 		tr.vals[x] = vc.fieldOf(base.Typ, x.Field, base.T)
 	case *ssa.Field:
 		base := tr.val(x.X)
